@@ -347,9 +347,12 @@ def stepLine (_ : Unit) (ws : List String) : Unit × String :=
       let o := runDead cfg (natOf n) (natOf answered)
       ((), i ++ " " ++ (if (fault.splitOn ".").contains "s0" then o.replace "sub eof" "sub -" else o))
   | ["tmo", i, client, kind] =>
+    -- `late.<v>`, `zero.<v>`, `early.<v>`: the same scenario through the `_with_timeout` twin of entry point <v>
+    let base := (kind.splitOn ".").headD ""
+    let base := if base == "zero" then "late" else base
     match cfgOf (natOf client) with
     | none => bad i
-    | some cfg => ((), i ++ " " ++ runTmo cfg kind)
+    | some cfg => ((), i ++ " " ++ runTmo cfg base)
   | ["sched", i, client, n, acts] =>
     match cfgOf (natOf client) with
     | none => bad i
